@@ -164,6 +164,10 @@ class Spec:
     def closure_multiplicity(self, callee):
         return None
 
+    def view(self, eng, body):
+        """the form of `body` that is explored (a spec may splice private helpers in, see inline.py)"""
+        return body
+
 
 ONCE = ("std::thread::local::LocalKey::<T>::with", "std::thread::local::LocalKey::<T>::try_with")
 _O = "core::option::Option::<T>::"
@@ -229,7 +233,11 @@ class Engine:
     # ---- abstract evaluation ------------------------------------------
     def eval_place(self, body, val, pl):
         if isinstance(pl, int):
-            return val.get(pl)
+            v = val.get(pl)
+            if isinstance(v, tuple) and v[0] == "eq":
+                w = val.get(v[1])
+                return w if isinstance(w, int) else v
+            return v
         v = val.get(pl["l"])
         for e in pl["p"]:
             if v is None:
@@ -267,7 +275,14 @@ class Engine:
     def eval_rvalue(self, body, val, rv, V):
         k = rv["k"]
         if k == "use":
-            return self.eval_op(body, val, rv["a"])
+            v = self.eval_op(body, val, rv["a"])
+            if v is None:
+                # a copy of a bool whose value is not known yet: remember the equality, so that learning either
+                # side on a later branch teaches the other (`let failed = a || flag; .. if flag {..} .. if failed {..}`)
+                p = op_place(rv["a"])
+                if isinstance(p, int) and body.locals[p] == "bool" and self._stable(body, p):
+                    return ("eq", p)
+            return v
         if k == "cast":
             v = self.eval_op(body, val, rv["a"])
             return v if isinstance(v, int) else (v if rv.get("ck") in ("PointerCoercion", "Transmute", "PtrToPtr") else None)
@@ -405,7 +420,7 @@ class Engine:
             return {(self.zero, None)}
         self.inprogress.add(key)
         try:
-            res = self.explore(self.F.body(path), V)
+            res = self.explore(self.spec.view(self, self.F.body(path)), V)
         finally:
             self.inprogress.discard(key)
         self.memo[key] = res
@@ -463,6 +478,10 @@ class Engine:
                 ov = self.eval_op(body, val, t["op"])
                 l = op_local(t["op"])
                 pk = None
+                eqs = []
+                if isinstance(ov, tuple) and ov[0] == "eq":
+                    eqs = [ov[1]]
+                    ov = None
                 if not isinstance(ov, int) and l is not None:
                     pk = self._pred_key(body, l)
                     if pk is not None and pk[0] in val:
@@ -477,16 +496,18 @@ class Engine:
                         nv = dict(val)
                         if l is not None:
                             nv[l] = int(v)
-                            for m in srcs:
+                            for m in srcs + eqs:
                                 nv[m] = int(v)
+                            self._concretise(nv, [l] + srcs + eqs, int(v))
                             if pk is not None and is_bool:
                                 nv[pk[0]] = int(v) ^ pk[1]
                         outs.append((vec, nv, tg))
                     nv = dict(val)
                     if is_bool:
                         nv[l] = 1
-                        for m in srcs:
+                        for m in srcs + eqs:
                             nv[m] = 1
+                        self._concretise(nv, [l] + srcs + eqs, 1)
                         if pk is not None:
                             nv[pk[0]] = 1 ^ pk[1]
                     outs.append((vec, nv, t["else"]))
@@ -560,6 +581,22 @@ class Engine:
                 return l
             return l
         return None
+
+    @staticmethod
+    def _concretise(nv, learned, v):
+        """every local recorded as equal to a local whose value was just learned takes that value (the source itself
+        may be dead, and dropped from the valuation, by the time the copy is tested)"""
+        ls = set(learned)
+        for x, xv in list(nv.items()):
+            if isinstance(xv, tuple) and xv[0] == "eq" and xv[1] in ls:
+                nv[x] = v
+
+    def _stable(self, body, l):
+        """a local that keeps its value once set: a parameter or single-assignment local whose address is never taken"""
+        if l in self.mut_borrowed(body) or l in body.borrowed():
+            return False
+        ds = body.defs().get(l, [])
+        return (1 <= l <= body.argc and not ds) or (len(ds) == 1 and ds[0][2] in ("assign", "call"))
 
     def _copy_sources(self, body, l):
         """bare locals that `l` is a plain copy of (so that learning l's value teaches theirs)"""
